@@ -554,6 +554,13 @@ class _CompressionMiddleware:
                 title="Unsupported Content-Encoding",
                 description=f"Content-Encoding {content_encoding!r} is not supported by this server",
             )
+        if req_enc is Encoding.IDENTITY:
+            # ``identity`` means "no transform applied" (RFC 9110 §8.4.1): the
+            # body already is the plaintext, so there is nothing to decode and
+            # nothing an operator could have disabled.  It is never a member of
+            # ``_decode`` (available_encodings() leaves it out), so without this
+            # it fell into the "not enabled" 415 below.
+            return
         if req_enc not in self._decode:
             raise falcon.HTTPUnsupportedMediaType(
                 title="Unsupported Content-Encoding",
